@@ -647,6 +647,19 @@ func c18R2(r *Report) {
 				continue
 			}
 			if f2, base := loadedFieldAny(w.st.Val); f2 != nil && f2.Name() == cf {
+				// conf := c.Conf: a local copy of the event's configuration
+				if al, isAl := base.(*ssa.Alloc); isAl {
+					n := 0
+					for _, ref := range *al.Referrers() {
+						if st2, isSt := ref.(*ssa.Store); isSt && st2.Addr == ssa.Value(al) {
+							n++
+							base = st2.Val
+						}
+					}
+					if n != 1 {
+						base = al
+					}
+				}
 				if f3, _ := loadedFieldAny(base); f3 != nil && f3.Name() == "Conf" {
 					good = append(good, w.st)
 				}
